@@ -780,3 +780,275 @@ func TestMessageReuse(t *testing.T) {
 		return reuseCase{first, second, rapid.IntRange(0, 5).Draw(t, "emptySecond") == 0}
 	}, checkMessageReuse, func(c reuseCase) bool { return len(c.First.Fields) > 0 })
 }
+
+// ---- the three SecurityFeatures kinds, decode side ----------------------------------------------------------------
+//
+// Header.Unmarshal always installs the Reserved kind, so the decoders of the other two kinds are reached only when a
+// caller decodes the 8 bytes with the kind the transport calls for. MS-CIFS 2.2.3.1: SecuritySignature (8 bytes);
+// connectionless transport: Key (4 bytes), CID (2 bytes), SequenceNumber (2 bytes), little-endian; otherwise
+// Reserved (8 bytes). Each kind decodes 8 reference bytes directly; the fields must be those the layout gives,
+// 8 bytes are consumed, and encoding the decoded value gives the 8 bytes back.
+
+type secCase struct {
+	Kind  int    `json:"security_features_kind"` // 0 reserved, 1 signature, 2 connectionless
+	Bytes vf.Hex `json:"bytes"`
+}
+
+func checkSecurityFeatures(c secCase) []vf.Finding {
+	if len(c.Bytes) != 8 {
+		return []vf.Finding{vf.F("harness", "bad-case", "%d bytes", len(c.Bytes))}
+	}
+	in := make([]byte, 8) // exact capacity
+	copy(in, c.Bytes)
+	var sf securityfeatures.SecurityFeatures
+	var subject string
+	var same func() string
+	switch c.Kind {
+	case 1:
+		v := securityfeatures.NewSecurityFeaturesSecuritySignature()
+		sf, subject = v, "SecurityFeaturesSecuritySignature"
+		same = func() string {
+			if got := v.GetSecuritySignature(); !bytes.Equal(got[:], c.Bytes) || !bytes.Equal(v.SecuritySignature[:], c.Bytes) {
+				return fmt.Sprintf("signature %x", got)
+			}
+			return ""
+		}
+	case 2:
+		v := securityfeatures.NewSecurityFeaturesConnectionlessTransport()
+		sf, subject = v, "SecurityFeaturesConnectionlessTransport"
+		same = func() string {
+			key, cid, seq := binary.LittleEndian.Uint32(c.Bytes[0:4]), binary.LittleEndian.Uint16(c.Bytes[4:6]), binary.LittleEndian.Uint16(c.Bytes[6:8])
+			if v.Key != key || v.CID != cid || v.SequenceNumber != seq {
+				return fmt.Sprintf("Key %#x CID %#x SequenceNumber %#x, the layout gives %#x %#x %#x", v.Key, v.CID, v.SequenceNumber, key, cid, seq)
+			}
+			return ""
+		}
+	default:
+		v := securityfeatures.NewSecurityFeaturesReserved()
+		sf, subject = v, "SecurityFeaturesReserved"
+		same = func() string {
+			if !bytes.Equal(v.Reserved[:], c.Bytes) {
+				return fmt.Sprintf("reserved %x", v.Reserved)
+			}
+			return ""
+		}
+	}
+	n, err := safeBlock(sf, in)
+	if err != nil || n != 8 {
+		return []vf.Finding{vf.F(subject+".Unmarshal", "reference-security-features-rejected", "n=%d err=%v", n, err)}
+	}
+	var fs []vf.Finding
+	if msg := same(); msg != "" {
+		fs = append(fs, vf.F(subject+".Unmarshal", "decoded-security-features-differ", "bytes %x decoded as %s", []byte(c.Bytes), msg))
+	}
+	if again, err := sf.Marshal(); err != nil || !bytes.Equal(again, c.Bytes) {
+		fs = append(fs, vf.F(subject+".Marshal", "security-features-do-not-round-trip", "bytes %x decoded and encoded again: %x (err %v)", []byte(c.Bytes), again, err))
+	}
+	return fs
+}
+
+func TestSecurityFeaturesDecode(t *testing.T) {
+	s := vf.Begin(t, P, "security-features-decode")
+	vf.Rapid(s, vf.N(3000, 50000), func(t *rapid.T) secCase {
+		kind := rapid.IntRange(0, 2).Draw(t, "secKind")
+		if rapid.IntRange(0, 3).Draw(t, "any") == 0 {
+			return secCase{kind, rapid.SliceOfN(rapid.Byte(), 8, 8).Draw(t, "bytes")}
+		}
+		return secCase{kind, rapid.SliceOfNDistinct(rapid.ByteRange(1, 254), 8, 8, rapid.ID[byte]).Draw(t, "distinct")}
+	}, checkSecurityFeatures, func(c secCase) bool { return !bytes.Equal(c.Bytes, make([]byte, 8)) })
+}
+
+// ---- histories with a change between two Marshal calls -------------------------------------------------------------
+//
+// A Message is a value the caller keeps: it is encoded, some of its fields are given new values (a retransmission
+// with another MID, the next request on the same structure ...) and it is encoded again. The second encoding
+// must be that of the message as it is now - byte for byte what a newly built message with the new values gives -
+// and decode back to the new header. Likewise a Message that has been encoded and then decodes a packet must give
+// what a new Message gives for that packet. (repeat-marshal only repeats Marshal on an untouched message.)
+
+type changeCase struct {
+	Before msgCase `json:"message"`
+	// After: the same structure with the values the message has when it is encoded the second time
+	After   msgCase `json:"message_after_change"`
+	Changed string  `json:"changed"`
+	// Packet: instead of changing fields, the encoded message decodes this packet and is compared with a new Message
+	Packet *msgCase `json:"then_decodes_packet,omitempty"`
+}
+
+// assign gives an existing header the field values of c, field by field, as a caller would.
+func (c hdrCase) assign(h *header.Header, reply bool) {
+	n := c.lib()
+	h.Status = n.Status // the command code is the structure's (AddCommand set it) and stays
+	h.SetFlags(c.Flags &^ 0x80)
+	if reply {
+		h.SetFlags(c.Flags | 0x80)
+	}
+	h.SetFlags2(c.Flags2)
+	h.PIDHigh, h.Reserved, h.TID, h.PIDLow, h.UID, h.MID = c.PIDHigh, c.Reserved, c.TID, c.PIDLow, c.UID, c.MID
+	h.SecurityFeatures = n.SecurityFeatures
+}
+
+func safeMessageMarshal(m *message.Message) (b []byte, err error) {
+	defer func() {
+		if r := recover(); r != nil {
+			err = fmt.Errorf("panic: %v", r)
+		}
+	}()
+	return m.Marshal()
+}
+
+func checkChange(c changeCase) []vf.Finding {
+	m, err := c.Before.build()
+	if err != nil {
+		return []vf.Finding{vf.F("harness", "bad-case", "%v", err)}
+	}
+	first, err := safeMessageMarshal(m)
+	if err != nil {
+		return nil // not encodable: reported by framing
+	}
+	first = append([]byte{}, first...)
+	subject := c.Before.Struct
+	if c.Packet != nil {
+		w, err := wireOf(*c.Packet, false)
+		if err != nil {
+			return nil
+		}
+		fresh := message.NewMessage()
+		if err := safeUnmarshal(fresh, append([]byte{}, w...)); err != nil {
+			return nil // the packet does not decode on its own: reported by framing
+		}
+		if err := safeUnmarshal(m, append([]byte{}, w...)); err != nil {
+			return []vf.Finding{vf.F(c.Packet.Struct, "encoded-message-rejects-packet-a-new-one-accepts", "after encoding a %s message: %v", subject, err)}
+		}
+		ft, fh, fa, ferr := describe(fresh)
+		rt, rh, ra, rerr := describe(m)
+		if ft != rt || !bytes.Equal(fh, rh) || (ferr == nil) != (rerr == nil) || (ferr == nil && !bytes.Equal(fa, ra)) {
+			return []vf.Finding{vf.F(c.Packet.Struct, "encoded-message-decodes-packet-differently", "a Message that had encoded a %s message decodes the packet as %s (header %x, re-encoded %d bytes, err %v), a new Message as %s (header %x, %d bytes, err %v)", subject, rt, rh, len(ra), rerr, ft, fh, len(fa), ferr)}
+		}
+		return nil
+	}
+	if c.After.Struct != c.Before.Struct {
+		return []vf.Finding{vf.F("harness", "bad-case", "the change replaces the structure")}
+	}
+	e, _ := smbgen.ByName(c.Before.Struct)
+	c.After.Header.assign(m.Header, e.Response)
+	if err := smbgen.Restore(m.Command, c.After.Fields); err != nil {
+		return []vf.Finding{vf.F("harness", "bad-case", "%v", err)}
+	}
+	second, err2 := safeMessageMarshal(m)
+	fm, err := c.After.build()
+	if err != nil {
+		return []vf.Finding{vf.F("harness", "bad-case", "%v", err)}
+	}
+	want, werr := safeMessageMarshal(fm)
+	if werr != nil {
+		return nil // the new values are not encodable on their own: reported by framing
+	}
+	if err2 != nil {
+		return []vf.Finding{vf.F(subject, "marshal-after-change-fails", "changed %s: %v (a new message with the same values encodes)", c.Changed, err2)}
+	}
+	if !bytes.Equal(second, want) {
+		d := 0
+		for d < len(second) && d < len(want) && second[d] == want[d] {
+			d++
+		}
+		kind := "marshal-after-change-differs-from-new-message"
+		if bytes.Equal(second, first) && !bytes.Equal(first, want) {
+			kind = "marshal-after-change-repeats-earlier-encoding"
+		}
+		return []vf.Finding{vf.F(subject, kind, "changed %s: %d bytes, a new message with the same values gives %d bytes, first difference at byte %d", c.Changed, len(second), len(want), d)}
+	}
+	// and it decodes to the header the message has now
+	back := message.NewMessage()
+	if err := safeUnmarshal(back, append([]byte{}, second...)); err == nil {
+		if hb, _ := back.Header.Marshal(); !bytes.Equal(hb, mustHeader(m)) {
+			return []vf.Finding{vf.F(subject, "decoded-header-fields-differ", "after a change of %s: %x vs %x", c.Changed, hb, mustHeader(m))}
+		}
+	}
+	return nil
+}
+
+// changeHeader returns c with one field replaced by the value it has in o (the kind of SecurityFeatures stays).
+func changeHeader(t *rapid.T, c, o hdrCase) (hdrCase, string) {
+	switch rapid.IntRange(0, 9).Draw(t, "headerField") {
+	case 0:
+		c.Status = o.Status
+		return c, "Status"
+	case 1:
+		c.Flags = o.Flags
+		return c, "Flags"
+	case 2:
+		c.Flags2 = o.Flags2
+		return c, "Flags2"
+	case 3:
+		c.PIDHigh = o.PIDHigh
+		return c, "PIDHigh"
+	case 4:
+		c.Security = o.Security
+		return c, "SecurityFeatures"
+	case 5:
+		c.TID = o.TID
+		return c, "TID"
+	case 6:
+		c.PIDLow = o.PIDLow
+		return c, "PIDLow"
+	case 7:
+		c.UID = o.UID
+		return c, "UID"
+	case 8:
+		c.Reserved = o.Reserved
+		return c, "Reserved"
+	}
+	c.MID = o.MID
+	return c, "MID"
+}
+
+func TestMarshalAfterChange(t *testing.T) {
+	s := vf.Begin(t, P, "marshal-after-change")
+	names := smbgen.Names()
+	per := vf.N(6, 100)
+	idx := 0
+	vf.Rapid(s, len(names)*per, func(t *rapid.T) changeCase {
+		name := names[(idx/per)%len(names)]
+		idx++
+		e, _ := smbgen.ByName(name)
+		fill := func() map[string]json.RawMessage {
+			cmd := smbgen.New(e)
+			smbgen.Fill(t, cmd, smbgen.Options{MaxBytes: 24})
+			return smbgen.Snapshot(cmd)
+		}
+		before := msgCase{genHdr(t), name, fill(), 2}
+		other := msgCase{genHdr(t), name, fill(), 2}
+		switch rapid.IntRange(0, 5).Draw(t, "history") {
+		case 0:
+			s.Class("marshal, decode a packet")
+			p := genMsg(t, 24)
+			return changeCase{Before: before, After: before, Changed: "nothing", Packet: &p}
+		case 1, 2:
+			s.Class("marshal, change every field, marshal")
+			return changeCase{Before: before, After: other, Changed: "every field"}
+		}
+		s.Class("marshal, change one header field and one command field, marshal")
+		after := before
+		var hf string
+		after.Header, hf = changeHeader(t, before.Header, other.Header)
+		own := smbgen.OwnFields(smbgen.New(e))
+		if len(own) == 0 {
+			return changeCase{Before: before, After: after, Changed: "Header." + hf}
+		}
+		f := own[rapid.IntRange(0, len(own)-1).Draw(t, "commandField")].Name
+		cmd := smbgen.New(e)
+		smbgen.Restore(cmd, before.Fields)
+		smbgen.Restore(cmd, map[string]json.RawMessage{f: other.Fields[f]})
+		smbgen.ApplyRelations(cmd) // the counts follow a changed buffer: the assignment stays consistent
+		after.Fields = smbgen.Snapshot(cmd)
+		return changeCase{Before: before, After: after, Changed: "Header." + hf + " and " + f}
+	}, checkChange, func(c changeCase) bool {
+		if c.Packet != nil {
+			return len(c.Packet.Fields) > 0
+		}
+		a, _ := json.Marshal(c.Before)
+		b, _ := json.Marshal(c.After)
+		return !bytes.Equal(a, b)
+	})
+}
